@@ -286,20 +286,21 @@ def run_unit(u, outdir):
     res["samples"] = [{"description": "Verus function obligation set: " + k, "function": k, "category": "verus",
                        "location": os.path.relpath(path, VERIF)}
                       for k in j.get("func-details", {}) if k.startswith(u["id"] + "::")][:4]
-    if vr.get("encountered-error") or vr.get("encountered-vir-error") or "verified" not in vr:
-        # rustc / VIR error: unsupported construct or lost anchor in the proof text, not a verification failure
-        res.update(status="rejected", message=(p.stderr or "")[-2500:])
-        return res
+    err = p.stderr or ""
+    VERIF_ERR = (r"error: ([a-z ]*not satisfied|assertion failed|assertion failure|possible arithmetic (underflow|overflow)|"
+                 r"possible division by zero|possible bit shift|recommendation not met|unable to prove|nonlinear_arith|bit_vector)")
+    RUST_ERR = r"error\[E\d+\]|is not supported|not yet support|unsupported|error: expected|cannot find|mismatched types"
     if vr.get("errors", 0) == 0 and vr.get("success"):
         res["status"] = "verified"
         return res
-    # classify: rlimit/timeouts are tool limits; failed asserts/post-conditions are obligations
-    err = p.stderr or ""
-    if re.search(r"Resource limit \(rlimit\) exceeded|timed out", err) and not re.search(
-            r"assertion failed|postcondition not satisfied|precondition not satisfied|invariant not satisfied|"
-            r"possible arithmetic|possible division|decreases not satisfied|loop invariant", err):
-        res.update(status="rlimit", message="Verus resource limit exceeded")
+    if "verified" not in vr or vr.get("encountered-vir-error") or re.search(RUST_ERR, err) or not re.search(VERIF_ERR, err):
+        if re.search(r"Resource limit \(rlimit\) exceeded|timed out", err) and not re.search(RUST_ERR, err):
+            res.update(status="rlimit", message="Verus resource limit exceeded")
+            return res
+        # rustc / VIR error: unsupported construct or lost anchor in the proof text, not a verification failure
+        res.update(status="rejected", message=err[-2500:])
         return res
+    # a genuine verification failure: at least one obligation of the woven text is not provable
     failed = []
     for m in re.finditer(r"error: ([^\n]+)\n\s+--> ([^\n]+)\n(?:[^\n]*\n){0,3}?\s*(\d+)\s*\|\s*([^\n]*)", err):
         if m.group(1).startswith("aborting") or "Resource limit" in m.group(1):
